@@ -521,7 +521,13 @@ func (t *TransportLayerCC) Unmarshal(rawPacket []byte) error { //nolint:gocognit
 					}
 				}
 			}
-			processedPacketNum += uint16(len(packetStatus.SymbolList))
+			// a status vector chunk may describe more packets than remain; the
+			// 16-bit counter must not wrap around, or the loop would start over
+			if n := uint16(len(packetStatus.SymbolList)); n > t.PacketStatusCount-processedPacketNum {
+				processedPacketNum = t.PacketStatusCount
+			} else {
+				processedPacketNum += n
+			}
 		}
 		packetStatusPos += packetStatusChunkLength
 		t.PacketChunks = append(t.PacketChunks, iPacketStatus)
